@@ -37,7 +37,11 @@ def setup(ctx):
 
 
 def run(ctx, spec, rng):
+    _FLOOR[0] = 1.0
     globals()["_run_" + spec[0]](ctx, spec, rng)
+
+
+_FLOOR = [1.0]  # natural magnitude of the map of the running case (maps are also probed at magnitudes 1e-6 and 1e6)
 
 
 def _rel(a, b):
@@ -45,7 +49,7 @@ def _rel(a, b):
     b = np.asarray(b)
     if a.shape != b.shape:
         return float("inf")
-    return float(np.abs(a - b).max()) / (1 + float(np.abs(b).max()))
+    return float(np.abs(a - b).max()) / (_FLOOR[0] + float(np.abs(b).max()))
 
 
 def _make_map(rng, din, dout, r, cls, cplx):
@@ -74,6 +78,12 @@ def _run_map(ctx, spec, rng):
     cls = ["cp", "cp", "hp", "gen"][int(rng.integers(0, 4))]
     cplx = bool(rng.integers(0, 2))
     a_ops, b_ops = _make_map(rng, din, dout, r, cls, cplx)
+    mag = [1.0, 1.0, 1e-3, 1.0, 1e3, 1.0][spec[1] % 6]  # operators scaled by mag: the map has magnitude mag^2
+    if mag != 1.0:
+        same = b_ops is a_ops
+        a_ops = [mag * a for a in a_ops]
+        b_ops = a_ops if same else [mag * b for b in b_ops]
+    _FLOOR[0] = mag ** 2
     x = gen.rc(rng, din, din)
     want = ref.apply_kraus(x, a_ops, b_ops)
     j_ref = ref.choi_of(a_ops, b_ops, din)
